@@ -32,7 +32,7 @@ const STACK: usize = 0x40000;
 const PCT_DEPTH: usize = 3;
 /// scenario weights (a_run, a_run_available, b_stream), out of 5
 const WEIGHTS: [u64; 3] = [2, 1, 2];
-const SET_CAP: usize = 1_000_000;
+const SET_CAP: usize = 4_000_000;
 const MAX_FAILURES: usize = 12;
 
 const RULE: &str = "One case = one shuttle execution (schedule) of a scenario: a_run (Dfir::run + stub tick closure vs 1-2 waker \
@@ -442,7 +442,7 @@ fn selftest(args: &Args, n_random: u64, n_pct: u64) -> Result<(u64, u64), String
 // Check
 
 fn tier_counts(args: &Args) -> (u64, u64) {
-    let total = args.runs.unwrap_or(if args.tier == "thorough" { 2_000_000 } else { 25_000 });
+    let total = args.runs.unwrap_or(if args.tier == "thorough" { 2_000_000 } else { 250_000 });
     let pct = total / 5;
     (total - pct, pct)
 }
